@@ -410,10 +410,11 @@ def classify(case, cfg, strategy, clauses, obs):
             return "sort_values:%s:missing-keys:order" % kind
         if any(p and all(x == NA for x in p) for p in split([r["k"] for r in case["rows"]], cfg["layout"])) and group in ("order", "whole", "raised:IndexError"):
             return "sort_values:partition-of-missing-keys:%s" % ("order" if group != "raised:IndexError" else group)
-        if case["naf"] and has_na and group in ("order", "whole"):
-            return "sort_values:na_position=first:missing-keys:order"
+        # (the presorted root cause first: it is independent of na_position, whose own root cause is fixed in /repo)
         if has_na and group in ("order", "whole") and _presorted_ignoring_na(case, cfg):
             return "sort_values:presorted-apart-from-missing-keys:order"
+        if case["naf"] and has_na and group in ("order", "whole"):
+            return "sort_values:na_position=first:missing-keys:order"
         return "sort_values:by=%s:%s:%s:%s" % (case["by"], strategy, kind, group)
     if fam == "setindex":
         if case["how"] == "auto" and has_na:
